@@ -32,11 +32,13 @@ def known_findings():
 def _work(job):
     """analyse one corpus crate for one property (runs in a worker process)"""
     prop, cname, fpath, decls = job
+    tmode = prop.endswith('#T')
+    prop = prop[:-2] if tmode else prop
     rep = rules.Report(prop)
     try:
         F = sym.Facts(fpath)
         ex = sym.Exec(F)
-        fn = props.E_PROPS[prop]
+        fn = props.T_PROPS[prop] if tmode else props.E_PROPS[prop]
         gens = []
         for d in decls:
             g = model.Gen(F, ex, d)
@@ -48,7 +50,7 @@ def _work(job):
                 fn(rep, g)
             except Exception as e:  # a rule crashing is a broken check, not a verdict
                 rep.ob('R-INTERNAL', None, g, f'rule crashed: {e!r}', {'tb': traceback.format_exc()[-1500:]})
-        cfn = props.CRATE_PROPS.get(prop)
+        cfn = None if tmode else props.CRATE_PROPS.get(prop)
         if cfn and gens:
             cfn(rep, F, gens)
     except Exception as e:
@@ -105,6 +107,14 @@ def check(prop, tier):
     if errs:
         print(f'check {prop}: worker failed: {errs[0]["error"]}\n{errs[0]["tb"]}')
         return 2
+    # ---- T-level: the unit tests the macro generates (cfg(test) build of a dedicated corpus)
+    if prop in props.T_PROPS:
+        tcrates, tpaths, tinfo = build.test_facts(tier)
+        if tinfo.get('rc') or not tpaths:
+            print(f'check {prop}: the generated-tests corpus does not compile in test mode: {tinfo.get("tail", "")[-1500:]}')
+            return 2
+        jobs = [(prop + '#T', cn, tpaths[cn], c['decls']) for cn, c in tcrates.items()]
+        results = list(results) + [_work(j) for j in jobs]
     # ---- W-level: compile-verdict witnesses
     wstats = {'witnesses': 0, 'pass_expected': 0, 'fail_expected': 0}
     wfind = []
